@@ -48,6 +48,72 @@ type ent struct {
 	TName string   // var: name of its declared type
 	Init  bool     // var has an initialiser
 	Keyed bool     // var: Text ends with a KEYED struct literal `T{...}` (more `field: value` pairs can be appended)
+	Deep  bool     // type: refers to other declarations from INSIDE an anonymous struct/func/map/chan type literal (scope depth >= 2)
+}
+
+// avoidDeepRef: set by the canary in main while finding C16-11 reproduces (a reference at scope depth >= 2, e.g. from inside an
+// anonymous struct type literal, to a name declared EARLIER in the text is dropped by dep.Scope.isLocal - the root of C16-2):
+// every permutation then puts a Deep type declaration before the names it uses, as it does for function declarations.
+var avoidDeepRef bool
+
+// addAnonRefs appends 2..4 type declarations that refer to the mutually recursive struct types of the set (Shape "cyc") from
+// inside anonymous struct / func / map / chan / slice type literals, and variables of those types. Only observations that do
+// not read a by-value field of a forward-declared type are shown (known finding C16-8 class).
+func addAnonRefs(es []ent, r *vh.Rng) []ent {
+	var cyc []int
+	for i, e := range es {
+		if e.Kind == "type" && e.Shape == "cyc" {
+			cyc = append(cyc, i)
+		}
+	}
+	if len(cyc) < 2 {
+		return es
+	}
+	type tmpl struct {
+		text  string // %[1]s type name, %[2]s %[3]s two types of the cycle
+		nrefs int
+		shows []string // %[1]s variable name
+		lit   string   // optional keyed literal body for a second variable, %[1]s type name
+		lshow string
+	}
+	tmpls := []tmpl{
+		{"type %[1]s struct { f struct { x *%[2]s }; k int }", 1, []string{"%[1]s.f.x == nil", "%[1]s.k"}, "%[1]s{k: 4}", "%[1]s.k + 1"},
+		{"type %[1]s struct { f func() %[2]s; k int }", 1, []string{"%[1]s.f == nil"}, "%[1]s{k: 5}", "%[1]s.k"},
+		{"type %[1]s struct { f func(%[2]s) *%[3]s; k int }", 2, []string{"%[1]s.f == nil"}, "", ""},
+		{"type %[1]s struct { f map[int]struct { x *%[2]s } }", 1, []string{"len(%[1]s.f)"}, "%[1]s{f: map[int]struct { x *%[2]s }{1: {}}}", "len(%[1]s.f)"},
+		{"type %[1]s struct { f chan struct { x *%[2]s } }", 1, []string{"%[1]s.f == nil"}, "", ""},
+		{"type %[1]s func(struct { x %[2]s }) %[3]s", 2, []string{"%[1]s == nil"}, "", ""},
+		{"type %[1]s []struct { x *%[2]s }", 1, []string{"len(%[1]s)"}, "", ""},
+		{"type %[1]s map[string]func(%[2]s) *%[3]s", 2, []string{"len(%[1]s)"}, "", ""},
+		{"type %[1]s struct { f struct { x %[2]s }; k int }", 1, []string{"%[1]s.k"}, "%[1]s{k: 8}", "%[1]s.k"},
+		{"type %[1]s struct { f struct { g struct { x *%[2]s; y []%[3]s } }; k int }", 2, []string{"%[1]s.f.g.x == nil", "%[1]s.k"}, "", ""},
+	}
+	for k, n := 0, 2+r.Intn(3); k < n; k++ {
+		t := tmpls[r.Intn(len(tmpls))]
+		a, b := cyc[r.Intn(len(cyc))], cyc[r.Intn(len(cyc))]
+		name := fmt.Sprintf("W%d", k)
+		refs := []int{a}
+		if t.nrefs == 2 {
+			refs = append(refs, b)
+		}
+		ti := len(es)
+		es = append(es, ent{Kind: "type", Name: name, Shape: "anon", Deep: true, Refs: refs,
+			Text: fmt.Sprintf(t.text, name, es[a].Name, es[b].Name)})
+		var sh []string
+		for _, x := range t.shows {
+			sh = append(sh, fmt.Sprintf(x, "Z"+name))
+		}
+		es = append(es, ent{Kind: "var", Name: "Z" + name, Refs: []int{ti}, Shape: "anon", TName: name,
+			Text: "var Z" + name + " " + name, Show: sh[0]})
+		for _, x := range sh[1:] { // further observations of the same variable
+			es = append(es, ent{Kind: "var", Name: "Z" + name, Shape: "anon", TName: name, Text: "", Show: x})
+		}
+		if t.lit != "" && r.Bool() {
+			es = append(es, ent{Kind: "var", Name: "U" + name, Init: true, Refs: append([]int{ti}, refs...), Shape: "anon", TName: name,
+				Text: "var U" + name + " = " + fmt.Sprintf(t.lit, name, es[a].Name), Show: fmt.Sprintf(t.lshow, "U"+name)})
+		}
+	}
+	return es
 }
 
 type declSet struct {
@@ -440,7 +506,7 @@ func permute(s declSet, r *vh.Rng) []int {
 		}
 		moved := false
 		for _, f := range order {
-			if s.Ents[f].Kind != "func" {
+			if s.Ents[f].Kind != "func" && !(s.Ents[f].Deep && avoidDeepRef) {
 				continue
 			}
 			m := pos[f]
@@ -509,7 +575,9 @@ func declLevelVarOrder(s declSet, order []int) []string {
 func text(s declSet, order []int) string {
 	var l []string
 	for _, i := range order {
-		l = append(l, s.Ents[i].Text)
+		if s.Ents[i].Text != "" { // show-only entries (a second observation of a variable) have no declaration
+			l = append(l, s.Ents[i].Text)
+		}
 	}
 	return strings.Join(l, "\n")
 }
@@ -803,7 +871,36 @@ type corpusEntry struct {
 	Src   string   `json:"src"`
 	Key   string   `json:"key"`
 	Shows []string `json:"shows"`
+	// Defer: the exact input of a finding that is not yet registered in known_findings.json; while its key is not registered
+	// a failure is listed in report.json extra "deferred_corpus_failures" instead of being reported
+	Defer bool `json:"defer_until_registered"`
 }
+
+// registeredKeys: the keys recorded for property C16 in $VERIF_DIR/known_findings.json
+func registeredKeys(dir string) map[string]bool {
+	out := map[string]bool{}
+	var kf struct {
+		Findings []struct {
+			Property string   `json:"property"`
+			Key      string   `json:"key"`
+			Other    []string `json:"other_keys"`
+		} `json:"findings"`
+	}
+	if b, err := os.ReadFile(filepath.Join(dir, "known_findings.json")); err == nil && json.Unmarshal(b, &kf) == nil {
+		for _, f := range kf.Findings {
+			if f.Property == "C16" {
+				out[f.Key] = true
+				for _, k := range f.Other {
+					out[k] = true
+				}
+			}
+		}
+	}
+	return out
+}
+
+// the exact input of finding C16-11 (corpus/C16/13-known-type-reference-inside-anonymous-type-literal.json)
+const deepRefCanary = "type NodeB struct { Back *NodeA }\ntype NodeA struct { Next *NodeB }\ntype P struct { First struct { X NodeA } }"
 
 func main() {
 	a := vh.ParseArgs()
@@ -817,6 +914,9 @@ func main() {
 		"(checked against go/types); plus the corpus. "+
 		"Struct FIELDS are named like package-level declarations of the same set (vars, funcs, types, consts; declared struct types incl. the recursive family, and anonymous struct types inside int initialisers and function bodies) "+
 		"and keyed struct literals use those names as keys (field names, never references); identifier keys of map/array literals (references) only next to another reference to the same name (known finding C16-10). "+
+		"ANON (30 quick / 300 thorough sets, own PRNG stream): a set with a family of mutually recursive struct types plus 2..4 type declarations that refer to the family from INSIDE anonymous struct/func/map/chan/slice type literals "+
+		"(scope depth >= 2; nested up to 3 levels, by value and through pointers) and zero-valued / keyed-literal variables of those types, read back without touching a by-value field of a forward-declared type; "+
+		"while finding C16-11 reproduces (canary = its exact input) every permutation puts such a type declaration before the names it uses. "+
 		"HISTORIES (40 quick / 400 thorough): a set with a family of mutually recursive types is evaluated, then a REDEFINING set (same names and kinds, other shapes/links/field names/initialisers, again with a type cycle; every 5th: the same set in another order) "+
 		"is evaluated in the SAME interpreter and every name is compared with compiled Go of the second set alone. Excluded classes (known findings): locals/parameters named like a declaration (#1), "+
 		"a function declaration that refers to a name declared earlier in the text (#2; every permutation puts a function before the names it uses), "+
@@ -825,9 +925,20 @@ func main() {
 	cw := vh.NewCases(a, "From Coq Require Import List NArith ZArith.\nFrom Verif Require Import Common.GoStr C17.Model C16.Model.\nImport ListNotations.\nOpen Scope Z_scope.", "case", "mismatches", 250)
 
 	nSets, nPerm, nCyc, nHist := 70, 3, 40, 40
+	nAnon := 30
 	if a.Thorough() {
 		nSets, nPerm, nCyc, nHist = 500, 5, 150, 400
+		nAnon = 300
 	}
+	avoidDeepRef = vh.Catch(func() {
+		ir := fast.New()
+		ir.Comp.Globals.Stdout, ir.Comp.Globals.Stderr = io.Discard, io.Discard
+		ir.Eval(deepRefCanary)
+	}) != nil
+	rep.Extra["defect_present:reference-from-anonymous-type-literal-to-earlier-name-dropped(C16-11)"] = avoidDeepRef
+	registered := registeredKeys(os.Getenv("VERIF_DIR"))
+	deferKey := map[string]bool{}
+	deferred := []string{}
 	if a.N > 0 {
 		nSets = a.N
 	}
@@ -844,6 +955,10 @@ func main() {
 				key = v.Pre + "\n----\n" + v.Src
 			}
 		}
+		if deferKey[key] && !registered[key] {
+			deferred = append(deferred, fmt.Sprintf("%s: %s: got %v want %v", key, what, got, want))
+			return
+		}
 		rep.Fail(vh.Failure{Key: key, What: what, Input: in, Got: got, Want: want})
 	}
 	// corpus first
@@ -854,16 +969,23 @@ func main() {
 		var c corpusEntry
 		if err == nil && json.Unmarshal(b, &c) == nil && c.Src != "" {
 			vs = append(vs, variant{ID: len(vs), Set: -1, Src: c.Src, Shows: c.Shows, Origin: "corpus", Key: c.Key})
+			if c.Defer && c.Key != "" {
+				deferKey[c.Key] = true
+			}
 		}
 	}
 	cyclicFrom := map[int]bool{}
 	excluded6 := 0
-	for si := 0; si < nSets+nCyc; si++ {
+	arng := vh.NewRng(a.Seed*7919 + 16) // own PRNG stream of the ANON sets: the streams above keep their seeds
+	for si := 0; si < nSets+nCyc+nAnon; si++ {
 		var s declSet
 		if si < nSets {
 			s = genSet(rng, si%3 == 0)
-		} else {
+		} else if si < nSets+nCyc {
 			s = genCyclic(rng)
+		} else {
+			s, _ = genSetK(arng, false, nil, true)
+			s.Ents = addAnonRefs(s.Ents, arng)
 		}
 		var shows []string
 		for _, e := range s.Ents {
@@ -873,7 +995,11 @@ func main() {
 		}
 		seen := map[string]bool{}
 		for k := 0; k < nPerm; k++ {
-			perm := permute(s, rng)
+			prng := rng
+			if si >= nSets+nCyc {
+				prng = arng
+			}
+			perm := permute(s, prng)
 			src := text(s, perm)
 			if seen[src] {
 				continue
@@ -891,6 +1017,9 @@ func main() {
 			if s.Cyclic {
 				v.Origin = "random-cyclic"
 				cyclicFrom[v.ID] = true
+			}
+			if si >= nSets+nCyc {
+				rep.Dist("set:with-references-from-anonymous-type-literals")
 			}
 			vs = append(vs, v)
 		}
@@ -916,6 +1045,7 @@ func main() {
 		}
 		vs = append(vs, variant{ID: len(vs), Set: nSets + nCyc + h, Src: text(s2, permute(s2, rng)), Shows: shows,
 			Origin: "history:" + mode, Pre: text(s1, permute(s1, rng))})
+		vs[len(vs)-1].Set += nAnon
 	}
 	// go/types on every variant; only accepted ones are compiled
 	infos := make([]goInfo, len(vs))
@@ -1077,9 +1207,10 @@ func main() {
 			"Definition verif_mismatches : list Z := Eval vm_compute in hist_mismatches cases.\nPrint verif_mismatches.\n"
 		os.WriteFile(a.Path("cases_hist.v"), []byte(body), 0o644)
 	}
+	rep.Extra["deferred_corpus_failures"] = deferred
 	rep.Extra["history_model_cases"] = len(histCases)
 	rep.Extra["variants_compiled_by_go_build"] = len(compile)
-	rep.Extra["declaration_sets"] = nSets + nCyc
+	rep.Extra["declaration_sets"] = nSets + nCyc + nAnon
 	rep.Extra["excluded_by_known_finding_class_C16_6"] = excluded6
 	rep.Write()
 }
